@@ -6,6 +6,7 @@ implementation's own artefacts, and the occurrence oracles (C01–C09).
 import Driver.Dump
 import PmVerif.Model.ManyMatcher
 import PmVerif.Model.BuilderT
+import PmVerif.Model.TraversalX
 import PmVerif.Proofs.C07Check
 import PmVerif.Spec.Occurs
 import PmVerif.Spec.MatRun
@@ -225,7 +226,7 @@ def handleE2E {K V P H M Pat} [DecidableEq K] [DecidableEq V] [DecidableEq P]
     | some naive =>
       let implNaive := naive.map fun (i, m) => s!"{i}:{dom.sMap m}"
       -- NaiveManyMatcher numbers the compiled patterns by their position among them
-      match naiveMatches dom.D h FUEL (inputs.map (·.2.1)) 0 with
+      match naiveMatchesX dom.D h FUEL (inputs.map fun x => (x.2.1, x.2.2)) 0 with
       | .error e => out := { out with dis := out.dis ++ [s!"SINGLE.run model-error {e}"] }
       | .ok ns =>
         let modelNaive := ns.map fun (i, m) => s!"{i}:{dom.sMap m}"
@@ -410,9 +411,7 @@ def tableE2E (s : TScheme) (strategy : Nat) : E2EDom Nat Nat TPred THost TMap TP
     convert := fun p => if p.convertible then some p.cons else none,
     consEq := fun a b => a == b,
     extraKeys := fun p => p.extra.getD [],
-    judge := none,
-    knownC03 := fun p => if (p.extra.getD []).isEmpty then none
-      else some "baseline-ignores-Pattern::required_bindings" }
+    judge := none }
 
 def handleE2ETable : Parser String := do
   let s ← pScheme
